@@ -350,6 +350,13 @@ class FormulaManager(object):
           - (Optionally) a mpq or mpz object
         """
         # TODO could this be improved by storing only the relative Fraction (or int maybe) in the real_constants dict?
+        if not (is_pysmt_fraction(value) or isinstance(value, tuple) or
+                is_python_rational(value)):
+            # Checked before the cache: True == 1, so a cached 1 would
+            # otherwise answer for an invalid value
+            raise PysmtTypeError("Invalid type in constant. The type was:" + \
+                                 str(type(value)))
+
         if value in self.real_constants:
             return self.real_constants[value]
 
@@ -357,11 +364,8 @@ class FormulaManager(object):
             val = value
         elif isinstance(value, tuple):
             val = Fraction(value[0], value[1])
-        elif is_python_rational(value):
-            val = pysmt_fraction_from_rational(value)
         else:
-            raise PysmtTypeError("Invalid type in constant. The type was:" + \
-                                 str(type(value)))
+            val = pysmt_fraction_from_rational(value)
 
         n = self.create_node(node_type=op.REAL_CONSTANT,
                              args=tuple(),
@@ -371,16 +375,19 @@ class FormulaManager(object):
 
     def Int(self, value: int) -> FNode:
         """Return a constant of type INT."""
+        if not (is_pysmt_integer(value) or is_python_integer(value)):
+            # Checked before the cache: 1.0 == 1, so a cached 1 would
+            # otherwise answer for an invalid value
+            raise PysmtTypeError("Invalid type in constant. The type was:" + \
+                                 str(type(value)))
+
         if value in self.int_constants:
             return self.int_constants[value]
 
         if is_pysmt_integer(value):
             val = value
-        elif is_python_integer(value):
-            val = pysmt_integer_from_integer(value)
         else:
-            raise PysmtTypeError("Invalid type in constant. The type was:" + \
-                                 str(type(value)))
+            val = pysmt_integer_from_integer(value)
         n = self.create_node(node_type=op.INT_CONSTANT,
                              args=tuple(),
                              payload=val)
